@@ -25,7 +25,7 @@ LEVEL = "fault_enumeration"
 TECHNIQUE = "bounded exhaustive enumeration of gateway ACK-fault plans + Hypothesis-sampled longer schedules; real UDP/TCP tunnel on a virtual-time loop vs simulated gateway; wire-log oracle"
 RULE = (
     "case = (transport, auto_reconnect, number of senders, concurrent or sequential, per-transmission ACK fault plan); "
-    "all plans over the 8-symbol alphabet up to length 3 (quick) / 4 (thorough) x 1..3 sends x {sequential, concurrent} x auto_reconnect on/off, "
+    "all plans over the 8-symbol alphabet up to length 3 (quick) / 4 (thorough) x 1..3 sends x {sequential, concurrent, staggered arrivals} x auto_reconnect on/off, "
     "plus sampled schedules with up to 8 sends, reconnect and heartbeat faults; non-trivial = plan containing a stale/duplicate/late/wrong-channel/error ACK, a drop or a disconnect; distinct by case"
 )
 LEVEL_TEXT = "Every bounded ACK-fault plan is executed against the real tunnel client in virtual time; counters, repetitions, one-outstanding-request and the 'succeeds only on its own ACK' clause are decided from the simulated gateway's wire log. Longer schedules are sampled, not enumerated."
@@ -93,6 +93,17 @@ def execute(case):
         n = case["sends"]
         if case["mode"] == "conc":
             await asyncio.gather(*(asyncio.create_task(send(i)) for i in range(n)))
+        elif case["mode"] == "stag":
+            # concurrent senders arriving one after the other (a later sender may arrive after a reconnect
+            # that happened while an earlier one is still in flight)
+            offs = case.get("offsets") or [0.03 * i for i in range(n)]
+
+            async def later(i: int) -> None:
+                if offs[i]:
+                    await asyncio.sleep(offs[i])
+                await send(i)
+
+            await asyncio.gather(*(asyncio.create_task(later(i)) for i in range(n)))
         else:
             gaps = case.get("gaps") or [0.0] * n
             for i in range(n):
@@ -219,7 +230,7 @@ def _enum_shard(ctx, L: int, first) -> None:
         plan = [first, *rest]
         label = "".join(_sym(o) for o in plan)
         for sends in (1, 2, 3):
-            for mode in ("seq", "conc"):
+            for mode in ("seq", "conc", "stag"):
                 for ar in (True, False):
                     case = {"transport": "udp", "auto_reconnect": ar, "sends": sends, "mode": mode, "plan": [list(o) if isinstance(o, tuple) else o for o in plan]}
                     check_case(ctx, case)
@@ -238,7 +249,7 @@ _outcome = st.sampled_from(ALPHABET) | st.tuples(st.just("late"), st.sampled_fro
 def cases(draw):
     transport = draw(st.sampled_from(["udp", "udp", "udp", "tcp"]))
     sends = draw(st.integers(1, 8))
-    mode = draw(st.sampled_from(["seq", "conc"]))
+    mode = draw(st.sampled_from(["seq", "conc", "stag"]))
     plan = draw(st.lists(_outcome, min_size=0, max_size=14))
     # bias towards mostly-acked plans so that long counter runs happen
     if draw(st.booleans()):
@@ -253,6 +264,8 @@ def cases(draw):
         "hb_plan": draw(st.lists(st.sampled_from(["ok", "drop", "err"]), max_size=4)),
         "tail": draw(st.sampled_from([3.0, 80.0])),
     }
+    if mode == "stag":
+        case["offsets"] = sorted(draw(st.lists(st.sampled_from([0.0, 0.012, 0.03, 0.06, 0.5, 1.03, 2.1]), min_size=sends, max_size=sends)))
     if mode == "seq":
         case["gaps"] = draw(st.lists(st.sampled_from([0.0, 0.0, 0.3, 1.1, 75.0]), min_size=sends, max_size=sends))
     return case
